@@ -4,6 +4,8 @@ import hashlib
 import importlib
 import inspect
 
+import os
+_DEBUG = bool(os.environ.get('VERIF_DEBUG'))
 EXPLAIN = []  # filled during concrete replay: why the body returned False
 
 
@@ -13,6 +15,10 @@ def fail(reason: str) -> bool:
     `reason` must be a concrete string (never format symbolic values into it: CrossHair would
     realise them); under symbolic execution the list is simply ignored."""
     EXPLAIN.append(reason)
+    if _DEBUG:
+        import sys, traceback
+        print("FAIL:", reason, file=sys.stderr)
+        traceback.print_exc(file=sys.stderr)
     return False
 
 
@@ -70,3 +76,51 @@ class CappedRange:
         if len(a) == 1 and isinstance(a[0], int) and a[0] > self.cap:
             return range(self.cap)
         return range(*a)
+
+
+def realize_all(x):
+    """deep-realize symbolic values (no-op outside CrossHair)"""
+    try:
+        from crosshair.core import deep_realize
+    except Exception:  # pragma: no cover
+        return x
+    return deep_realize(x)
+
+
+def sym_ceil(v):
+    c = int(v)
+    return c if c == v else (c + 1 if v > 0 else c)
+
+
+def sym_floor(v):
+    c = int(v)
+    return c if c == v else (c if v > 0 else c - 1)
+
+
+class Realizing:
+    """Proxy for a C-level library module (numpy / torch) installed in the module under test: the
+    Python-level arithmetic in front of a library call stays symbolic, at the call the arguments are
+    realised (CrossHair then enumerates the remaining values, which is exhaustive for bounded
+    integer ranges). ceil/floor are computed symbolically so that a real-valued operand is never
+    realised (that would never exhaust)."""
+
+    def __init__(self, mod, symbolic=("ceil", "floor")):
+        self._mod = mod
+        self._symbolic = symbolic
+
+    def __getattr__(self, name):
+        f = getattr(self._mod, name)
+        if name == "ceil" and "ceil" in self._symbolic:
+            return sym_ceil
+        if name == "floor" and "floor" in self._symbolic:
+            return sym_floor
+        if isinstance(f, type) or not callable(f):
+            import types
+            if isinstance(f, types.ModuleType):
+                return Realizing(f, self._symbolic)
+            return f
+
+        def call(*a, **k):
+            return f(*realize_all(a), **realize_all(k))
+
+        return call
